@@ -103,6 +103,16 @@ def oracle(aug, impl):
     quads = ops[k + 1:]
     if any(o[0] != "Q" for o in quads):
         return "arc emitted something else than quadratic curves"
+    struct_note = None
+    if sw == sw:
+        # the number of curves the model's transcription of the arc gives (PathShape.arc_nsteps, theorem C20_arc_structure):
+        # ceil(min(|sweep|, 2 pi) / (pi/4)) evaluated in binary32
+        f32 = lambda v: bits_f32(FB(v))
+        two_pi, quarter = f32(bits_f32(1078530011) * 2.0), bits_f32(1061752795)
+        qv = f32(min(abs(sw), two_pi) / quarter)
+        kq = int(math.ceil(qv)) if qv == qv and abs(qv) != float("inf") else 0
+        if len(quads) != kq:
+            struct_note = "CORR: arc emitted %d curves where the model's arc_nsteps gives %d" % (len(quads), kq)
     eff = max(-2 * math.pi, min(2 * math.pi, sw))
     cur = (ops[k][1], ops[k][2])
     total = 0.0
@@ -128,7 +138,7 @@ def oracle(aug, impl):
         ex, ey = x + r * math.cos(a0 + eff), y + r * math.sin(a0 + eff)
         if math.hypot(cur[0] - ex, cur[1] - ey) > eps + 2e-3 * r * (1 + abs(a0) * 1e-2):
             return "the arc does not end at the angle start + sweep (one full turn at most)"
-    return None
+    return struct_note
 
 
 def nontrivial(aug, impl):
